@@ -451,6 +451,9 @@ impl Coll for Exports {
             ("d".into(), ItemKey::T),
             // a second name for a function that "a" may already export
             ("e".into(), ItemKey::F(0)),
+            // a function export that shares its name with the memory export
+            // (the API does not forbid it; lookups by name go by kind)
+            ("b".into(), ItemKey::F(1)),
         ]
     }
     fn add(&mut self, v: &Self::Val) -> Result<ExportId, ()> {
